@@ -73,6 +73,7 @@ static void* arenaAlloc(size_t n) {
     char* p = g_arena + g_arenaUsed + 32;
     g_arenaUsed += need;
     C19_UNPOISON(p, n ? n : 1);
+    memset(p, 0xCD, n ? n : 1);       // fresh arena pages are zero: never hand out memory that looks initialised
     return p;
 }
 static void arenaFree(void* p, size_t n) {
